@@ -9,6 +9,7 @@ claims = {
  "C20": ("model_checking", "bounded symbolic execution of the real LRUCache code against a reference LRU: every feasible path of every operation history within the bounds is decided by z3; termination of Set is an unwinding obligation", "section 4 C20"),
  "C05": ("model_checking", "Router.Match on symbolic route tables and symbolic request paths against the declarative most-specific-match rule; all table shapes/orders within the bounds", "section 4 C05"),
  "C02": ("translation_validation", "differential execution of the two engines (interpreter.ExecuteRoute vs compiler.CompileRoute+vm.Execute) on symbolic-leaf program templates: for every operator, operand kind and payload within the bounds z3 decides whether the outcomes can differ", "section 4 C02"),
+ "C03": ("translation_validation", "-O1/-O2 bytecode against -O0 bytecode on the VM for pointer-form AST templates with symbolic literals and a free variable of every runtime kind: z3 decides whether any literal value / runtime value makes the optimised program's outcome differ", "section 4 C03"),
  "C10": ("model_checking", "symbolic byte buffers through the real bytecode loader and VM (step limit, allocation bound and termination as implicit assertions) and symbolic source bytes through the real lexer and parser", "section 4 C10"),
 }
 NA_REASON = {}
